@@ -17,10 +17,10 @@ def main():
     print('loaded in %.1fs' % (time.time() - t))
     names = []
     for a in args:
-        if '::' in a:
+        if a.startswith('h_') or a.startswith('ht_'):
             names.append(a)
         else:
-            names += run.list_harnesses(eng, a)
+            names += [f for m, f, _ in build.harness_fns(os.path.join(build.VERIF, 'harness')) if m == a]
     out = tempfile.mkdtemp(prefix='mirsym-run-')
     t = time.time()
     res = run.explore(eng, names, out, jobs=jobs)
